@@ -1,6 +1,7 @@
 #![allow(dead_code)]
 mod base;
 mod c01;
+mod c15;
 mod client;
 mod mem;
 mod util;
@@ -14,6 +15,8 @@ fn main() {
     let rest = &args[2..].to_vec();
     match args[1].as_str() {
         "c01" => c01::run(rest),
+        "c15" => c15::run(rest),
+        "c15-child" => c15::child(rest),
         "client" => client::run(rest),
         x => {
             eprintln!("unknown command {x}");
